@@ -12,8 +12,10 @@ def rnd_yield(rng):
     return round(rng.uniform(5, 120), rng.choice([0, 1, 3]))
 
 
-def gen_spec(rng, max_channels=3, max_samples=3, max_bins=4, want=None, simple=False):
-    """returns (spec, info).  `want`: optional set of modifier types that must appear."""
+def gen_spec(rng, max_channels=3, max_samples=3, max_bins=4, want=None, simple=False, avoid=()):
+    """returns (spec, info).  `want`: optional set of modifier types that must appear; `avoid`: systematic names / modifier types never used
+    (parameter sets are created by modifier type — histosys, lumi, normfactor, normsys, shapefactor, shapesys, staterror — then by name, so
+    avoiding SYS_POOL and 'lumi' puts the Poisson-constrained shapesys block *first* in the auxiliary data)."""
     nch = rng.randint(1, max_channels)
     chan_names = rng.sample(['SR', 'CR1', 'CR2', 'VR', 'A_ch'], nch)
     channels = []
@@ -37,6 +39,7 @@ def gen_spec(rng, max_channels=3, max_samples=3, max_bins=4, want=None, simple=F
             if not simple:
                 for sysn in SYS_POOL:
                     r = rng.random()
+                    if sysn in avoid: continue
                     if r < 0.22:
                         mods.append({'name': sysn, 'type': 'normsys',
                                      'data': {'lo': round(rng.uniform(0.7, 0.97), 3), 'hi': round(rng.uniform(1.03, 1.3), 3)}})
@@ -46,7 +49,7 @@ def gen_spec(rng, max_channels=3, max_samples=3, max_bins=4, want=None, simple=F
                         if rng.random() < 0.3:   # one-sided / asymmetric-sign variations
                             hi = [round(d * rng.uniform(0.8, 1.0), 3) for d in data]
                         mods.append({'name': sysn, 'type': 'histosys', 'data': {'lo_data': lo, 'hi_data': hi}})
-                if rng.random() < 0.3:
+                if rng.random() < 0.3 and 'lumi' not in avoid:
                     mods.append({'name': 'lumi', 'type': 'lumi', 'data': None})
                 if rng.random() < 0.3:
                     unc = [round(d * rng.uniform(0.05, 0.3), 3) for d in data]
@@ -86,7 +89,7 @@ def gen_spec(rng, max_channels=3, max_samples=3, max_bins=4, want=None, simple=F
             parameters[-1]['fixed'] = True
     spec = {'channels': channels, 'parameters': parameters}
     if want and not (set(want) <= used_types):
-        return gen_spec(rng, max_channels, max_samples, max_bins, want, simple)
+        return gen_spec(rng, max_channels, max_samples, max_bins, want, simple, avoid)
     return spec, {'types': sorted(used_types), 'nch': nch}
 
 
